@@ -182,7 +182,7 @@ def run(prop, tier, seed):
         for key in keys:
             chan[v["channel"]]["deviations"][key] += 1
             filed[key] += 1
-            if filed[key] > 3:
+            if filed[key] > 3 and key not in {k["key"] for k in rep.known}:
                 continue        # same defect family: counted in coverage.channels, three replay files are enough
             mism = [{"field": "%s@%d" % (x["pred"], x["k"]), "want": "holds", "got": x["detail"]}
                     for x in v["viol"] if x["key"] == key]
